@@ -42,11 +42,28 @@ def make_points(rng):
         pts.append((pos, w))
     if all(w is None for _, w in pts):
         pts[0] = (pts[0][0], Fraction(1))
+    # narrow input dtypes: weights that are exactly representable there but whose sums and quotients are not
+    # (the statistic must still be the double-precision one of exactly these values)
+    r = rng.random()
+    if r < 0.2:
+        pts = [(p, None if w is None else Fraction(float(np.float32(rng.uniform(0.1, 1000.0))))) for p, w in pts]
+        DTYPE[0] = 'float32'
+    elif r < 0.3:
+        pts = [(p, None if w is None else Fraction(float(np.float16(rng.uniform(0.1, 60.0))))) for p, w in pts]
+        DTYPE[0] = 'float16'
+    elif r < 0.4 and all(w is not None for _, w in pts):
+        pts = [(p, Fraction(rng.randint(1, 200))) for p, w in pts]
+        DTYPE[0] = rng.choice(['uint8', 'int16', 'int32', 'int64'])
+    else:
+        DTYPE[0] = 'float64'
     return nd, pts
 
 
+DTYPE = ['float64']      # dtype of the values array handed to ScalarStatistic for the points made last
+
+
 def stat_of(pts, nd):
-    vals = np.array([np.nan if w is None else float(w) for _, w in pts])
+    vals = np.array([np.nan if w is None else float(w) for _, w in pts]).astype(DTYPE[0])
     idx = tuple(np.array([p[i] for p, _ in pts]) for i in range(nd))
     return ScalarStatistic(vals, idx)
 
